@@ -93,6 +93,7 @@ func c20Property(t *rapid.T, st *Stats) {
 	c := cache.New[string, int](opts)
 	next := 0
 	seenLedger := 0
+	bumped := map[int]bool{}
 	// observe compares membership with the model and judges every new ledger entry
 	observe := func(after string) {
 		if hookErr != "" {
@@ -106,6 +107,9 @@ func c20Property(t *rapid.T, st *Stats) {
 			}
 			if !le.ok {
 				classes["callback-failed"] = true
+				if le.async {
+					bumped[le.val] = true // a failed prune attempt re-dates the entry (documented in the code: retried later)
+				}
 			}
 			if le.async {
 				// (3) never expire an entry that was used within Age, unless the count limit forces the eviction
@@ -211,7 +215,16 @@ func c20Property(t *rapid.T, st *Stats) {
 						evicted = append(evicted, vv)
 					}
 				}
-				if len(evicted) > 0 && len(before)+1 > count {
+				anyBumped := false
+				for _, vv := range before {
+					if bumped[vv.val] {
+						anyBumped = true
+					}
+				}
+				if anyBumped && len(evicted) > 0 {
+					classes["lru-not-judged-after-failed-prune"] = true
+				}
+				if len(evicted) > 0 && len(before)+1 > count && !anyBumped {
 					cands := []*c20Inc{}
 					for kk, vv := range before {
 						if kk != k && !failing[kk] {
